@@ -102,7 +102,8 @@ fn extract_class(
     } else {
         None
     };
-    let mut body_name_stmts: HashMap<Core, (usize, Core)> = match body {
+    // Position is followed by index in body, so that order is the same each time if positions tie
+    let mut body_name_stmts: HashMap<Core, ((usize, usize), Core)> = match body {
         Some(Core::Block { statements }) => statements,
         Some(other) => vec![other],
         None => vec![],
@@ -123,11 +124,11 @@ fn extract_class(
             _ => (
                 i,
                 Core::Id {
-                    lit: String::from("@"),
+                    lit: format!("@{i}"),
                 },
             ),
         };
-        (key, (pos, stmt.clone()))
+        (key, ((pos, i), stmt.clone()))
     })
     .collect();
 
@@ -144,12 +145,13 @@ fn extract_class(
         let pos = if let Some((pos, _)) = body_name_stmts.get(&init) {
             *pos // leave pos untouched
         } else {
-            body_name_stmts
+            let after_last_var = body_name_stmts
                 .values()
                 .filter(|(_, stmt)| matches!(stmt, Core::VarDef { .. }))
-                .map(|(pos, _)| *pos + 1)
+                .map(|((pos, _), _)| *pos + 1)
                 .max()
-                .unwrap_or(0) // otherwise always first
+                .unwrap_or(0); // otherwise always first
+            (after_last_var, usize::MAX)
         };
 
         body_name_stmts.insert(init, (pos, new_init));
